@@ -29,7 +29,11 @@ function cv(v, depth, seen) {
     case 'bigint': return 'bi:' + v.toString();
     case 'string': return 's:' + JSON.stringify(v);
     case 'symbol': return 'sym:' + JSON.stringify(String(v.description));
-    case 'function': return 'fn';
+    case 'function': {
+      // functions tagged by test preludes with an own data property __id are distinguishable
+      try { const d = Object.getOwnPropertyDescriptor(v, '__id'); if (d && 'value' in d && (typeof d.value === 'number' || typeof d.value === 'string')) return 'fn#' + d.value; } catch (e) {}
+      return 'fn';
+    }
   }
   if (v === null) return 'null';
   if (depth > 5) return 'deep';
